@@ -25,7 +25,8 @@ IdleApp == [phase |-> "idle", rd |-> NoReady, appendQ |-> <<>>, applyQ |-> <<>>,
 
 NoAct == [name |-> "Init", node |-> 0, inc |-> 0, ret |-> "ok", panic |-> "", pre |-> DownNode,
           preDisk |-> EmptyDisk, preSD |-> EmptyDisk, msg |-> BaseMsg, sent |-> <<>>, stepped |-> <<>>, ents |-> <<>>,
-          rd |-> NoReady, pid |-> 0, psz |-> 0, rid |-> 0, to |-> 0, k |-> 0, keep |-> FALSE, det |-> TRUE]
+          rd |-> NoReady, pid |-> 0, psz |-> 0, rid |-> 0, to |-> 0, k |-> 0, keep |-> FALSE, ok |-> FALSE,
+          conf |-> EmptyConf, det |-> TRUE]
 
 Cfg(i) == cl.nodes[i]
 
